@@ -51,6 +51,7 @@ def run(tier, seed):
     Q.collect(PROP, ares, verdict, ainp, foreign)
     ncert = sum(1 for b in behs + behs2 for s in b["steps"] if (s["act"] or {}).get("name") in ("RecvDecided", "RecvForgedDecided"))
 
+    selftest = Q.binding_selftest(PROP, behs)
     rc = verdict.report()
     div = res["counters"].get("divergences", 0)
     if div:
@@ -67,7 +68,7 @@ def run(tier, seed):
                 "the listed members, distinctness, quorum, H(FullData)=Root, leader and value check for local decisions)",
         "exhaustive": all(c["exhaustive"] for c in configs),
         "detail": {"configs": configs, "attack_traces": [b["id"] for b in abehs], "stale_attacks": stale,
-                   "certificate_receptions_replayed": ncert, "divergences": div,
+                   "certificate_receptions_replayed": ncert, "divergences": div, "binding_selftest": selftest,
                    "divergence_samples": res["divergences"][:5], "foreign_signatures_seen": foreign},
     }
     vlib.write_evidence(PROP, tier, seed, "model_checking", cov, time.time() - t0, [
